@@ -385,6 +385,10 @@ class V(object):
             else:
                 if doc.get("id") != self.m.tlp[color]:
                     self.bad("tlp-instance", path, "TLP %s must have id %s" % (color, self.m.tlp[color]))
+                if self.ver == "2.1" and "name" in doc and doc["name"] != "TLP:" + color.upper():
+                    # the 2.1 instances are named TLP:WHITE ...; "other instances of tlp-marking MUST NOT be used or created"
+                    # (a missing name is left alone: grey zone, specmodel/AUDIT.md)
+                    self.bad("tlp-instance", path, "TLP %s is named TLP:%s, not %r" % (color, color.upper(), doc["name"]))
                 try:
                     if ts_key(doc.get("created", "")) != ts_key(self.m.tlp_created):
                         self.bad("tlp-instance", path, "TLP %s must have created %s" % (color, self.m.tlp_created))
